@@ -1,6 +1,6 @@
 from _warnings import warn
 from typing import Sequence
-from numpy import ndarray, array, sort, zeros, take_along_axis, expand_dims
+from numpy import ndarray, array, sort, zeros, take_along_axis, expand_dims, int64
 
 
 def sample_hdi(sample: ndarray, fraction: float) -> ndarray:
@@ -46,6 +46,11 @@ def sample_hdi(sample: ndarray, fraction: float) -> ndarray:
             \r>> instead has type {type(sample)}.
             """
         )
+
+    # the window widths are differences of sample values: in a narrow integer type
+    # these would wrap around, and booleans cannot be subtracted at all
+    if s.dtype.kind in "iub" and s.dtype.itemsize < 8:
+        s = s.astype(int64)
 
     if s.ndim > 2 or s.ndim == 0:
         raise ValueError(
